@@ -86,14 +86,17 @@ def MonoR (nid : Nat) (r : Option (Pr × MS)) : Prop :=
 def Mono2 (nid : Nat) (r : Option (Option (Pr × MS))) : Prop :=
   ∀ p m', r = some (some (p, m')) → nid ≤ m'.user.nextId
 
+/-- asserting one clause of the program, as the harness does (assertz marks the predicates dynamic) -/
+def assertStep (s : St) (c : Term) : St :=
+  match compile (toRep c) with
+  | .ok (c1 :: cs) =>
+    let old := (lookupProc s c1.name c1.arity).getD { dynamic := true }
+    setProc s c1.name c1.arity { old with clauses := old.clauses ++ (c1 :: cs) }
+  | _ => s
+
 /-- the state from which `runQuery` starts: `bootState` + the asserted program -/
 def initState (prog : List Term) (cancelAt : Option Nat) : St :=
-  prog.foldl (fun (s : St) c =>
-    match compile (toRep c) with
-    | .ok (c1 :: cs) =>
-      let old := (lookupProc s c1.name c1.arity).getD { dynamic := true }
-      setProc s c1.name c1.arity { old with clauses := old.clauses ++ (c1 :: cs) }
-    | _ => s) { loadClauses bootState [] with cancelAt := cancelAt }
+  prog.foldl assertStep { loadClauses bootState [] with cancelAt := cancelAt }
 
 /-- the promise of the query and the machine state `runQuery` forces it in -/
 def queryPromise (prog : List Term) (query : Term) (max : Nat) (cancelAt : Option Nat) : Pr × MS :=
